@@ -778,15 +778,8 @@ def m_config(hist, rec):
             report(hist, "C14", "validator_change", {"variant": var, "frame": True}, "validator change altered other configuration", rec)
 
 
-def m_boot_config(hist):
-    """C14 on the configuration accepted by instantiate"""
-    c = cfg(hist.dump)
-    if c is None:
-        return
-    for pmsg in wellformed_problems(c, hist.su.chain_prefix):
-        hist.findings.append({"property": "C14", "monitor": "wellformed", "signature": {"what": pmsg.split(" ")[0]},
-                              "what": "configuration accepted at instantiation is malformed: " + pmsg,
-                              "upto": len(hist.events), "event": hist.events[0]})
+def m_boot_messages(hist):
+    """C19 on what instantiate *returned* (whether or not the chain then accepted the transaction)"""
     try:
         from .implworld import decode_msg
         from .procs import canon_msgs, outcome
@@ -804,6 +797,17 @@ def m_boot_config(hist):
                                       "upto": len(hist.events), "event": hist.events[0]})
     except (KeyError, TypeError):
         pass
+
+
+def m_boot_config(hist):
+    """C14 on the configuration accepted by instantiate"""
+    c = cfg(hist.dump)
+    if c is None:
+        return
+    for pmsg in wellformed_problems(c, hist.su.chain_prefix):
+        hist.findings.append({"property": "C14", "monitor": "wellformed", "signature": {"what": pmsg.split(" ")[0]},
+                              "what": "configuration accepted at instantiation is malformed: " + pmsg,
+                              "upto": len(hist.events), "event": hist.events[0]})
     if not c["stopped"]:
         hist.findings.append({"property": "C10", "monitor": "boot_halted", "signature": {}, "what": "new contract is not halted",
                               "upto": len(hist.events), "event": hist.events[0]})
@@ -823,6 +827,10 @@ def m_tokenfactory(hist, rec):
             continue
         var = variant(c["msg"])
         tf = [m for m in c["msgs"] if m["k"] in ("mint", "burn", "create_denom")]
+        for m in c["msgs"]:
+            if m["k"] == "undecodable":
+                report(hist, "C19" if "tokenfactory" in m["type_url"] else "C16", "undecodable_message", {"variant": var, "build": hist.build, "url": m["type_url"]},
+                       "%s emits %s whose bytes are not protobuf (%s): %s" % (var, m["type_url"], m["error"], m["hex"][:80]), rec)
         sb, sa = state(b), state(a)
         if var == "liquid_stake":
             want = None
